@@ -10,7 +10,8 @@ from vlib.campaign import Result
 
 PID = "C14"
 LEVEL = "exploration"
-TECHNIQUE = "property-based testing: generated directory trees x option sets, listing compared with a set-theoretic oracle computed from the generated description (own file-name parser), reverse / forward metamorphic relation"
+TECHNIQUE = "property-based testing: generated directory trees x option sets, listing compared with a set-theoretic oracle computed from the generated description (own file-name parser), reverse / forward metamorphic relation; thorough adds coverage-guided fuzzing (atheris) of the same strategy"
+ENGINE = "pbt+atheris"
 RULE = (
     "Hypothesis builds real trees (1-3 levels; rf, dmd, legacy metadata.h5 channels; rf channel holding a 'metadata' "
     "channel; sparse and EMPTY timestamped subdirectories; tmp.*, other-kind, malformed and misplaced stray files; "
@@ -179,3 +180,51 @@ def shrink_candidates(case):
         for key, val in (("vanish", None), ("include_drf_properties", None), ("include_dmd_properties", None), ("recursive", True)):
             if o[key] != val:
                 yield dict(case, opts=[dict(o, **{key: val})])
+
+
+def extra(tier, seed, camp):
+    """Thorough tier only: coverage-guided campaign (atheris / libFuzzer driving the same Hypothesis strategy and oracle
+    through fuzz_one_input, coverage from digital_rf.list_drf)."""
+    if tier != "thorough":
+        return
+    import json
+    import shutil
+    import subprocess
+    import sys
+    import tempfile
+
+    from vlib.campaign import VERIF
+
+    if not os.path.isdir(os.path.join(VERIF, ".deps", "atheris")):
+        camp.extra_cov["atheris"] = "not installed (setup_cmd installs it into /verif/.deps); engine skipped"
+        return
+    work = tempfile.mkdtemp(prefix="ath-", dir="/dev/shm" if os.path.isdir("/dev/shm") else None)
+    procs = []
+    try:
+        for i in range(8):
+            cdir = os.path.join(work, "corpus%d" % i)
+            os.makedirs(cdir)
+            resf = os.path.join(work, "res%d.json" % i)
+            procs.append((resf, subprocess.Popen(
+                [sys.executable, os.path.join(VERIF, "tools", "atheris_c14.py"), resf, "-max_total_time=90", "-max_len=8192",
+                 "-len_control=0", "-seed=%d" % (seed * 100 + i + 1), cdir],
+                cwd=work, stdout=subprocess.DEVNULL, stderr=subprocess.DEVNULL)))
+        total = 0
+        for resf, p in procs:
+            try:
+                p.wait(timeout=400)
+            except subprocess.TimeoutExpired:
+                p.kill()
+            if os.path.exists(resf):
+                with open(resf) as f:
+                    d = json.load(f)
+                total += d["execs"]
+                for sig, detail, case in d["failures"]:
+                    r = Result()
+                    r.fail("atheris:" + sig, detail)
+                    camp.record(case, r)
+        camp.evaluations += total
+        camp.extra_cov["atheris_cases"] = total
+        camp.extra_cov["atheris"] = "8 x 90 s libFuzzer campaigns over the Hypothesis strategy (fuzz_one_input), coverage from digital_rf.list_drf"
+    finally:
+        shutil.rmtree(work, ignore_errors=True)
